@@ -20,9 +20,12 @@
             have returned) - the property's side condition.
    c02_ok   at every position with no Add in flight:  Count() = sum of all deltas;  sum = 0 ->
             every channel handed out so far is closed;  a Wait returning at such a position
-            with sum > 0 returns an open channel;  and a thread inside Wait that is scheduled
-            K_WAIT times in a row while no Add is in flight has returned (Wait never waits for
-            a call that has not started).  No call panics.                                  *)
+            with sum > 0 returns an open channel;  and a thread inside Wait has returned before
+            it has made K_WAIT steps of its own while no Add was in flight (Wait never waits
+            for a call that has not started).  The steps are counted PER GOROUTINE: what other
+            goroutines do in between (stutters, other Waits, Count) does not reset the count;
+            only an Add in flight does.  No call panics.  For well-formed traces c02_ok is
+            exactly the sentence c02_spec (WGSpecProofs.c02_ok_iff_spec).                   *)
 From Coq Require Import List Arith ZArith Bool.
 From GT Require Import Base.Conc.
 From GT Require Import WGModel.
@@ -122,7 +125,7 @@ Record mon2 := Mon2 {
   q_inflight : list nat;          (* threads inside Add *)
   q_sum : Z;                      (* sum of the deltas of all Add calls so far *)
   q_handed : list nat;            (* channels returned by Wait so far *)
-  q_waits : list (nat * nat);     (* (thread inside Wait, consecutive solo steps at rest) *)
+  q_waits : list (nat * nat);     (* (thread inside Wait, its own steps since an Add was last in flight) *)
   q_ok : bool
 }.
 
@@ -130,6 +133,12 @@ Definition remove_tid (tid : nat) (l : list nat) : list nat :=
   filter (fun t => negb (Nat.eqb t tid)) l.
 
 Definition is_nil {A} (l : list A) : bool := match l with [] => true | _ => false end.
+
+(* the step counter of a waiter: an item of the waiter itself made while no Add is in flight
+   counts, an item of anybody else made while no Add is in flight leaves the counter alone, any
+   item made while an Add is in flight resets it (the Wait may be retrying because of that Add) *)
+Definition wait_tick (tid : nat) (rest_before : bool) (p : nat * nat) : nat * nat :=
+  if rest_before then (if Nat.eqb (fst p) tid then (fst p, S (snd p)) else p) else (fst p, O).
 
 Definition mon2_step (m : mon2) (it : witem) : mon2 :=
   let tid := it_tid it in
@@ -144,8 +153,7 @@ Definition mon2_step (m : mon2) (it : witem) : mon2 :=
               end in
   let sum := match e with ECall (CAdd d) => q_sum m + d | _ => q_sum m end in
   let handed := match e with ERet CWait (RChan x) => x :: q_handed m | _ => q_handed m end in
-  let waits0 := map (fun p => if Nat.eqb (fst p) tid && rest_before
-                              then (fst p, S (snd p)) else (fst p, O)) (q_waits m) in
+  let waits0 := map (wait_tick tid rest_before) (q_waits m) in
   let waits := match e with
                | ECall CWait => (tid, O) :: waits0
                | ERet CWait _ => filter (fun p => negb (Nat.eqb (fst p) tid)) waits0
@@ -276,20 +284,25 @@ Fixpoint trace_wf (t : trace) : bool :=
    for every position u (p = the trace up to and including u, it = the item at u):
    no call has panicked; if no Add is in flight after u then the observed Count() is the sum of
    the deltas, with sum 0 every channel handed out so far is observed closed, and a Wait
-   returning at u with sum > 0 returns a channel observed open; and no thread inside Wait has
-   just been scheduled K_WAIT times in a row, each time with no Add in flight, without
-   returning.                                                                                *)
+   returning at u with sum > 0 returns a channel observed open; and every thread that is inside
+   Wait at u has made fewer than K_WAIT internal steps of its own since an Add was last in
+   flight (or since it called Wait).                                                         *)
 Definition at_rest (p : trace) : Prop := adds_in_flight p = [].
 
-Fixpoint solo_rest (p : trace) (tid k : nat) : Prop :=
-  match k with
-  | O => True
-  | S k' =>
-      match p with
-      | it :: older =>
-          it_tid it = tid /\ it_ev it = ETau /\ at_rest older /\ solo_rest older tid k'
-      | [] => False
-      end
+(* the internal steps thread tid has made, counting back from the newest item for as long as no
+   Add was in flight when the item was made, up to the thread's own call *)
+Fixpoint rest_steps (p : trace) (tid : nat) : nat :=
+  match p with
+  | [] => O
+  | it :: older =>
+      if is_nil (adds_in_flight older) then
+        if Nat.eqb (it_tid it) tid then
+          match it_ev it with
+          | ETau => S (rest_steps older tid)
+          | _ => O
+          end
+        else rest_steps older tid
+      else O
   end.
 
 Definition c02_spec (t : trace) : Prop :=
@@ -301,4 +314,4 @@ Definition c02_spec (t : trace) : Prop :=
        (sum_deltas p = 0 -> forall x, In x (handed_out p) -> In x (snd (it_obs it))) /\
        (forall x, it_ev it = ERet CWait (RChan x) -> 0 < sum_deltas p ->
                   ~ In x (snd (it_obs it)))) /\
-    (forall tid, in_call p tid = Some CWait -> ~ solo_rest p tid K_WAIT).
+    (forall tid, in_call p tid = Some CWait -> (rest_steps p tid < K_WAIT)%nat).
